@@ -60,7 +60,7 @@ def run(ctx, rep):
             cell = w.final[k]
             if cell[0] == 'Ok':
                 for x in subterms(cell[1]):
-                    if x and x[0] == 'app' and x[1] in eph_ctors and any(y and y[0] == 'upd' for y in subterms(x)):
+                    if x and x[0] == 'app' and x[1] in eph_ctors and any(y and y[0] == 'as' and y[2] == w.policy for y in subterms(x)):
                         adj_terms.setdefault(w.policy, set()).add(x)
     n_nl = 0
     eq_memo = {}
@@ -70,13 +70,24 @@ def run(ctx, rep):
             continue
         adj = next(iter(terms))
         # coordinates: request's coordinates with latitude := payload
-        upds = [y for y in subterms(adj) if y and y[0] == 'upd']
-        okc = len(upds) == 1 and upds[0][1] == ('field', ('param', 'tad'), 'coords') and upds[0][2][1] == 'latitude' and \
-            upds[0][3] == ('field', ('as', ('field', P, 'extreme_latitude_method'), pol), '0')
+        req = ('field', ('param', 'tad'), 'coords')
+        payl = ('field', ('as', ('field', P, 'extreme_latitude_method'), pol), '0')
+        comps = None
+        cadt = ctx.lib.adts.get(ctx.adt('Coordinates'))
+        names = [f['name'] for f in cadt['variants'][0]['fields']]
+        for y in subterms(adj):
+            if y and y[0] == 'upd' and y[1] == req:
+                comps = {n: ('field', req, n) for n in names}
+                comps[y[2][1]] = y[3]
+            elif y and y[0] == 'enum' and last_seg(y[1]) == 'Coordinates' and len(y[4]) == len(names):
+                comps = dict(zip(names, y[4]))
+        okc = comps is not None and comps.get('latitude') == payl and \
+            all(v == ('field', req, n) for n, v in comps.items() if n != 'latitude')
         rep.ob('R10.1', f'{pol}:substitute-coordinates', okc,
                'request coordinates with only the latitude replaced by the policy\'s latitude' if okc else
-               f'substitute coordinates: {[show(u, maxd=4)[:120] for u in upds]}')
-        reuse = any(y == ('param', 'tad') for a in adj[2] for y in subterms(a) if not (isinstance(a, tuple) and a and a[0] == 'upd'))
+               f'substitute coordinates: {({n: show(v, maxd=3)[:60] for n, v in comps.items()} if comps else None)}')
+        reuse = any(y == ('param', 'tad') or y == ('field', ('param', 'tad'), 'astro_day') for a in adj[2] for y in subterms(a)
+                    if not (isinstance(a, tuple) and a and (a[0] == 'upd' or (a[0] == 'enum' and last_seg(a[1]) == 'Coordinates'))))
         rep.ob('R10.1', f'{pol}:same-day-ephemeris', reuse, 'the day\'s ephemeris is reused' if reuse else 'a different day/ephemeris is used')
         # expected same-key values: the conventional builder at the substitute ephemeris
         exp = CV.Conv(ctx, tad_term=adj)
@@ -134,7 +145,7 @@ def run(ctx, rep):
                     cell = W.cell_under(w.final[k], w.asm)
                     if ic0.get(k) is False:
                         continue
-                    rep_d = cell[0] == 'Ok' and cell[2] == E.TRUE and cell[1] != W.policy.conv_atom(k)
+                    rep_d = any(cc[0] == 'Ok' and cc[2] == E.TRUE and cc[1] != W.policy.conv_atom(k) for cc in W.cell_cases(cell))
                     d = pats.setdefault((key, k), [False, w])
                     d[0] = d[0] or rep_d
         for (key, k), (found, w) in pats.items():
